@@ -78,7 +78,7 @@ def run_property(pid, tier="quick", seed=0):
     # ---- Verus units (parallel) ----
     def run_vx(u):
         try:
-            return u, vx.verify_unit(u, rlimit=SPEC.get("rlimit", 20)), None
+            return u, vx.verify_unit(u, rlimit=SPEC.get("rlimit", 20), stability_seeds=((7, 101, 4242) if tier == "thorough" else ())), None
         except ExtractError as e:
             return u, None, str(e)
 
@@ -305,6 +305,7 @@ def run_property(pid, tier="quick", seed=0):
             "solver_time_s": round(solver_ms / 1000.0, 3),
             "extraction_rules_fired": sorted(set(rules_fired)),
             "vacuity": {u: (unit_results[u][0] or {}).get("canary") for u in vx_units},
+            "proof_stability": {u: (unit_results[u][0] or {}).get("stability") for u in vx_units},
             "repo": repo_state(),
             "exhaustive": False,
         },
